@@ -50,6 +50,7 @@ type Obligation struct {
 	TimeS  float64
 	Model  string
 	Bounded bool
+	Cached  bool // answer taken from the query cache (identical query text answered earlier)
 }
 
 func NewVC(unit string) *VC {
